@@ -194,8 +194,12 @@ package node
 //@   ensures[jump] result == len(*cr.CS) - 1 && result >= old(len(*cr.CS))
 //@       && (bcop((*cr.CS)[result]) == bytecode.JMPF || bcop((*cr.CS)[result]) == bytecode.JMPT) && bck((*cr.CS)[result], 1) == 0 && bca((*cr.CS)[result], 1) == 0
 //
+// C12 "the condition of if and while must be boolean in every position": whatever the flags, the
+// code emitted for the statement contains the conditional jump that tests (and type-checks) the condition.
+//@ fun isCondJump(i bytecode.Type) bool := bcop(i) == bytecode.JMPF || bcop(i) == bytecode.JMPT
 //@ func (If).byteCode [C05,C12] implements ByteCoder.byteCode
 //@   assumes[unfold] exprOK(i.Condition) && wfAST(i.TrueCase) && (dyntype(i.Condition) == typeid[UnOp]() ==> exprOK(i.Condition.(UnOp).Target))
+//@   ensures[cond_tested;C12,C09] exists k :: old(len(*cr.CS)) <= k && k < len(*cr.CS) && isCondJump((*cr.CS)[k])
 //@ func (IfElse).byteCode [C05,C12] implements ByteCoder.byteCode
 //@   assumes[unfold] exprOK(i.Condition) && wfAST(i.TrueCase) && wfAST(i.FalseCase) && (dyntype(i.Condition) == typeid[UnOp]() ==> exprOK(i.Condition.(UnOp).Target))
 //
